@@ -25,7 +25,7 @@ Theorem C11_wait_after_stop : forall v env s,
   (done (progs v env) s TW = true ->
    match v with
    | VSleep => m_exc (tw s) = true
-   | VGetSig | VGetSigTimed | VGetSigReader | VGetSigTimedReader => m_exc (tw s) = true \/ m_sig (tw s) = true
+   | VGetSig | VGetSigTimed | VGetSigReader | VGetSigTimedReader | VGetSigPoll => m_exc (tw s) = true \/ m_sig (tw s) = true
    | VLoop => m_fin (tw s) = true
    end).
 Proof.
